@@ -152,11 +152,20 @@ fn choice_block_has_invisible_default(choices: &[Node]) -> bool {
     })
 }
 
+/// The grouped ("threaded") form of a choice block followed by an anonymous gather plays
+/// differently from the general form: it drops the text after `]`, breaks the line before a
+/// divert written on the choice line and makes a `* ->` fallback sticky. The general form is
+/// right in all these cases, so every such block gets it.
+const GROUPED_ANON_GATHER_FORM: bool = false;
+
 fn should_use_threaded_anon_gather(
     choices: &[Node],
     continuation: &[Node],
     scope: &EmitScope,
 ) -> bool {
+    if !GROUPED_ANON_GATHER_FORM {
+        return false;
+    }
     let continuation = skip_leading_newlines(continuation);
 
     if !matches!(continuation.first(), Some(Node::GatherPoint)) {
